@@ -28,6 +28,8 @@ Proof. repeat split; reflexivity. Qed.
 
 Example tie_C02_propagator_at_arb_t :
   einsum_pulse_sequence_PulseSequence_propagator_at_arb_t = ["lij,jl,lkj->lik"]
+  /\ raises_pulse_sequence_PulseSequence_propagator_at_arb_t = [("ValueError", "(t > self.t[-1]).any()")]
+  /\ raises_pulse_sequence_PulseSequence___getitem__ = [("IndexError", "not new_dt.size")]
   /\ Src.h_pulse_sequence_PulseSequence_propagator_at_arb_t = Expected.h_pulse_sequence_PulseSequence_propagator_at_arb_t.
 Proof. repeat split; reflexivity. Qed.
 
